@@ -525,8 +525,21 @@ pub fn check_c06(
     for (k, site) in sites.iter().enumerate() {
         let Some(e) = p.errs.get(k) else { break };
         if e.repairs.is_empty() {
-            // no repairs reported: was there a repair within a small cost? (only judged when
-            // the search space is exhausted within budget)
+            // nothing reported although the search was not cut short (a search that hits the
+            // expansion cap never gets here): then no repair may exist; the reference looks for
+            // one of small cost (three times the cheapest token, 60000 nodes at most)
+            let bound = 3 * cost_by_tidx.iter().copied().min().unwrap_or(1) as u64;
+            if let Some(res) = recov::repair_search(b, &site.stack, input, site.index, cost_by_tidx, bound, 60_000) {
+                if let Some(x) = res.expect.iter().next() {
+                    o.fail(
+                        "wrong",
+                        "C06/no-repair-reported-but-one-exists",
+                        ctx(&format!("error {k} at lexeme {}: no repair sequence reported although the search was not cut short; a valid repair of cost {} exists, e.g. {:?}", site.index, res.cstar, x)),
+                    );
+                    return false;
+                }
+            }
+            o.class("c06:no-repairs-reported");
             continue;
         }
         let mut lists: Vec<Vec<Mv>> = vec![];
